@@ -299,6 +299,17 @@ func c17Docs(cfg Config, lim c17Limits) ([]corpus.Doc, error) {
 			docs = append(docs, corpus.LongLine(f, 3, 1, "text", L))
 		}
 	}
+	// the same at the very end of the document: a final line of exactly the scanner's limit (+-1), without
+	// terminator or ending in a lone CR - whether EOF arrives with the last bytes or alone must not matter
+	for _, f := range []string{"srt", "vtt", "ssa"} {
+		base, _ := corpus.LongLineBase(f)
+		for _, L := range []int{65534, 65535, 65536, 65537} {
+			for _, end := range []string{"", "\r"} {
+				docs = append(docs, corpus.Doc{Name: fmt.Sprintf("finalline-%s-len%d-end%q", f, L, end), Format: f,
+					Data: append(append(append([]byte(nil), base...), bytes.Repeat([]byte("L"), L)...), end...), Cues: -1, Gen: true})
+			}
+		}
+	}
 	for _, sz := range lim.largeSizes {
 		for _, f := range []string{"srt", "vtt", "ssa"} {
 			docs = append(docs, corpus.Large(f, root.Derive("large-"+f, sz), sz))
